@@ -182,7 +182,12 @@ def run_history(case, ctx):
         d = int(rng.randint(1, min(case["max_d"], 4) + 1))
         io, bias = bool(rng.rand() < 0.5), bool(rng.rand() < 0.5)
         if rng.rand() < 0.8:
-            r = m.set_params(poly_degree=d, poly_interaction_only=io, poly_include_bias=bias)
+            if rng.rand() < 0.3:    # the same values as NumPy scalars (a numpy parameter grid)
+                r = m.set_params(poly_degree=numpy.int64(d), poly_interaction_only=numpy.bool_(io),
+                                 poly_include_bias=numpy.bool_(bias))
+                hist_np = True
+            else:
+                r = m.set_params(poly_degree=d, poly_interaction_only=io, poly_include_bias=bias)
             if rng.rand() < 0.2:
                 kind = "poly" if kind == "poly-slow" else "poly-slow"
                 m.set_params(kind=kind)
